@@ -172,7 +172,17 @@ func (m *ModSets) MayModify(ci ssa.CallInstruction, typ, field string) bool {
 		return false // trusted: code outside the module does not write the library's struct fields
 	}
 	s := m.sets[callee]
-	return s["*"] || s[typ+"."+field]
+	if s[typ+"."+field] {
+		return true
+	}
+	if s["*"] {
+		// the callee reaches unknown code: the same argument as for a direct dynamic call
+		if !token.IsExported(field) && !m.storedAfterConstruction(typ, field) {
+			return false
+		}
+		return true
+	}
+	return false
 }
 
 // Mods exposes the modification set of a function of the scope.
